@@ -27,6 +27,13 @@ extern volatile int g_segv;
 extern volatile int g_armed;
 extern const char* volatile g_assert_expr;
 extern volatile long g_assert_line;
+// sbepp::size_bytes(message, cursor) after the last visit (function-local
+// static: usable from every harness TU without a definition of its own)
+inline std::size_t& cursor_size_slot()
+{
+    static std::size_t v = 0;
+    return v;
+}
 
 template<typename F>
 bool guarded(F&& f)
@@ -688,6 +695,7 @@ void assign_data(D d, const bytes& b)
                             ::vh::rec_visitor<VH_BYTE> v{                     \
                                 p, &c, stop, &log, chunk};                    \
                             ::sbepp::visit_children(m, c, v);                 \
+                            ::vh::cursor_size_slot() = ::sbepp::size_bytes(m, c);\
                             return c.pointer() - p;                           \
                         }})
 
